@@ -3,6 +3,8 @@ package engine
 import (
 	"fmt"
 	"iter"
+
+	"github.com/ucan-wg/go-ucan/verifshim/sched"
 )
 
 // E4: cooperative scheduler. Logical threads are goroutines of which exactly one
@@ -12,8 +14,12 @@ import (
 
 // Sched records one execution.
 type Sched struct {
-	Preempt []bool // per choice point: whether a non-default choice is a preemption
-	Trace   []int  // thread chosen at each point
+	Preempt  []bool   // per choice point: whether a non-default choice is a preemption
+	Trace    []int    // thread chosen at each point
+	Ops      []string // the operation the chosen thread was about to perform when it last yielded ("" = start / explicit seam)
+	Deadlock bool     // no thread enabled although some have not finished
+	Blocked  []string // on deadlock: what each unfinished thread waits for
+	SyncPts  int      // scheduling points that came from hooked sync / atomic operations
 }
 
 // ThreadSeam is the Seam handed to a logical thread.
@@ -26,18 +32,30 @@ func (t ThreadSeam) Point() { t.yield(struct{}{}) }
 
 // RunThreads executes the bodies under schedule env and returns when all are
 // done. Logical threads are coroutines (iter.Pull): exactly one runs at a time and
-// control returns to the scheduler loop at every Point, which then chooses who
-// runs next (canonical order: the running thread first if it is still alive, then
-// ascending ids).
+// control returns to the scheduler loop at every Point - an explicit seam of the harness, or a
+// hooked sync / sync/atomic operation of the code under test (verifshim) - which then chooses
+// who runs next (canonical order: the running thread first if it is still enabled, then
+// ascending ids). A thread that waits for a lock, a Once or a WaitGroup is not enabled until its
+// condition holds; no enabled thread while some are unfinished is a deadlock.
 func RunThreads(env *Env, bodies []func(seam ThreadSeam)) *Sched {
 	n := len(bodies)
 	s := &Sched{}
 	next := make([]func() (struct{}, bool), n)
 	stop := make([]func(), n)
 	done := make([]bool, n)
+	waiting := make([]func() bool, n)
+	lastOp := make([]string, n)
 	for i := 0; i < n; i++ {
+		i := i
 		body := bodies[i]
 		next[i], stop[i] = iter.Pull(func(yield func(struct{}) bool) {
+			th := &sched.Thread{Yield: func(op string, ready func() bool) {
+				waiting[i], lastOp[i] = ready, op
+				s.SyncPts++
+				yield(struct{}{})
+			}}
+			sched.Register(th)
+			defer sched.Unregister(th)
 			body(ThreadSeam{yield})
 		})
 	}
@@ -46,31 +64,42 @@ func RunThreads(env *Env, bodies []func(seam ThreadSeam)) *Sched {
 			st()
 		}
 	}()
+	enabled := func(i int) bool { return !done[i] && (waiting[i] == nil || waiting[i]()) }
 	// initial choice: which thread starts (free)
 	cur := env.Choose(n)
 	s.Preempt = append(s.Preempt, false)
 	s.Trace = append(s.Trace, cur)
+	s.Ops = append(s.Ops, "")
 	for {
+		waiting[cur], lastOp[cur] = nil, ""
 		_, alive := next[cur]()
 		if !alive {
 			done[cur] = true
 		}
 		var en []int
-		if alive {
+		curEnabled := alive && enabled(cur)
+		if curEnabled {
 			en = append(en, cur)
 		}
 		for i := 0; i < n; i++ {
-			if !done[i] && !(alive && i == cur) {
+			if !(curEnabled && i == cur) && enabled(i) {
 				en = append(en, i)
 			}
 		}
 		if len(en) == 0 {
+			for i := 0; i < n; i++ {
+				if !done[i] {
+					s.Deadlock = true
+					s.Blocked = append(s.Blocked, fmt.Sprintf("thread %d waits in %s", i, lastOp[i]))
+				}
+			}
 			return s
 		}
 		c := env.Choose(len(en))
-		s.Preempt = append(s.Preempt, alive)
+		s.Preempt = append(s.Preempt, curEnabled)
 		cur = en[c]
 		s.Trace = append(s.Trace, cur)
+		s.Ops = append(s.Ops, lastOp[cur])
 	}
 }
 
